@@ -158,7 +158,8 @@ def canon(x):
 #      .target AND as the single command SetField(expr); the `:=` form only in .target.  The command is
 #      dropped only when its value is identical to .target.
 #  N2  a Shape with no elements == its subject  (upstream test_edgeql_syntax_shape_64 expects `Foo{}` -> `Foo`);
-#      N2': the path that results is flattened the way the grammar flattens it: `(a.b {}).c` == `a.b.c`, `(.a {}).c` == `.a.c`
+#      N2': the path that results is flattened the way the grammar flattens it: `(a.b {}).c` == `a.b.c`, `(.a {}).c` == `.a.c`;
+#      N2'': the sign is folded the way the grammar folds it: `-(1 {})` == `-1`
 #  N3  CreateMigration.parent ObjectRef('initial')  ==  no parent (edb/schema/migrations.py treats them alike)
 #  N4  trigger / rewrite / access-policy kind lists are sets (printed sorted, duplicates merged)
 #  N5  (inside an SDL Schema node, printer not `unsorted`) the order of declarations / commands in a body is
@@ -176,6 +177,11 @@ def normalise(n, sort_schema=False, in_schema=False):
         d = dict((k, v) for k, v in fields)
         if name == 'Shape' and 'elements' not in d and 'expr' in d:
             return d['expr']                                                    # N2
+        if name == 'UnaryOp' and d.get('op') == '-' and _is_node(d.get('operand')) and d['operand'][0] == 'Constant' \
+                and nfields(d['operand']).get('kind') in NUMKINDS and isinstance(nfields(d['operand']).get('value'), str):
+            # N2'' (never produced by the parser itself: reduce_MINUS_Expr folds the sign into every numeric constant;
+            # only N2 exposes it): `-(1 {})` == `-1`
+            return nrepl(d['operand'], 'value', '-' + nfields(d['operand'])['value'])
         if name == 'Path' and isinstance(d.get('steps'), list) and d['steps'] and _is_node(d['steps'][0]) \
                 and d['steps'][0][0] == 'Path' and len(d['steps']) > 1 \
                 and not (d.get('partial') and nfields(d['steps'][0]).get('partial')):
@@ -453,6 +459,13 @@ def ast_features(c):
                 feats.add('alter-empty')
             if cls == 'NestedQLBlock':
                 feats.add('nested-ql-block')
+            if cls == 'CreateOperator' and 'commands' in d and _is_node(d.get('returning')) and d['returning'][0] == 'TypeOf':
+                feats.add('operator-returning-typeof-block')
+            if cls == 'CreateTrigger' and _is_node(d.get('name')) and 'module' in nfields(d['name']):
+                feats.add('trigger-qualified-name')
+            if cls == 'CreateIndex' and isinstance(d.get('kwargs'), dict) and any(
+                    _is_stmt(z.get('v')) for z in d['kwargs'].get('__dict__', []) if isinstance(z, dict)):
+                feats.add('abstract-index-kwarg-statement')
             if cls == 'CreateOperator' and 'commands' not in d and _is_node(d.get('code')):
                 cd_ = nfields(d['code'])
                 if sum(1 for z in ('from_operator', 'from_function', 'code') if z in cd_) >= 2:
